@@ -5,6 +5,4 @@ cd "$(dirname "$0")"
 mkdir -p work evidence
 export CARGO_NET_OFFLINE=true
 cd harness
-cargo build --release --offline --quiet
-cargo build --release --offline --quiet --features concurrent
-cargo build --offline --quiet
+cargo build --release --offline --quiet --workspace
